@@ -278,6 +278,18 @@ Definition oracle_conversion (x : outcome * outcome) : bool :=
   end.
 Definition oracle_same (x : outcome * outcome) : bool := outcome_eqb (fst x) (snd x).
 
+(* the same for the dictionary decoder, where "cannot be converted" is the verdict of the real
+   converter on the text the decoder derives from the JSON value: an unconvertible value must
+   show as a conversion warning (or an error) without fail_on_converter_warnings and as an error
+   with it; in both cases the two runs must be consistent *)
+Definition oracle_json_conversion (x : bool * outcome * outcome) : bool :=
+  let '(unconvertible, nofail, fail) := x in
+  oracle_conversion (nofail, fail)
+  && (if unconvertible
+      then match nofail with Ok _ _ => has_conv_warning nofail | Err _ => true end
+           && match fail with Ok _ _ => false | Err _ => true end
+      else true).
+
 (* bit 0: model and implementation disagree; bit 1: the observed outcome is not documented
    (the guard bits of the C15 theorem are added by Proofs/ParserDoc.v: c15_code_guarded) *)
 Definition c15_code (x : corr_case) : N :=
